@@ -395,9 +395,9 @@ def body_frame(rnd, n=None):
     n = n if n is not None else rnd.choice([1, 2, 7, 8, 255, 256,
                                             rnd.randint(1, 400)])
     raw = bytearray(rnd.randbytes(n))
-    if rnd.random() < 0.3:
+    if n and rnd.random() < 0.3:
         raw[rnd.randrange(n)] = 0xCE
-    if rnd.random() < 0.15:
+    if n and rnd.random() < 0.15:
         raw[-1] = 0xCE                      # payload ends in the end octet
         if n > 1 and rnd.random() < 0.5:
             raw[-2] = 0xCE
